@@ -8,6 +8,7 @@ CONSTANTS
   Fmts = {"bc", "idx_bc"}
   NFiles = {1}
   Lazy = {"this"}
+  ProbeMax = 5
   Touches = {"lookup", "getitem"}
   Variant = "design"
 CONSTRAINT Emit
